@@ -1093,7 +1093,8 @@ def canon_call(res, codec, call):
             srv.append({"path": rec["path"], "requests": [codec.decode(call["input"], b) for b in rec["requests"]],
                         "metadata": sorted([k, v] for k, v in rec["metadata"] if k.startswith("x-goog-request"))})
     out["server"] = srv
-    out["stubs"] = [[s[0], s[1]] for s in res.get("stubs", [])]
+    # only the RPC's own stub: the operations-client stubs are created once per transport, by whichever LRO call comes first
+    out["stubs"] = [[s[0], s[1]] for s in res.get("stubs", []) if s[0] == call.get("path")]
     return out
 
 
@@ -1479,17 +1480,21 @@ CLAIM = dict(
           "field types, enums, resource references, nested declarations, LRO response/metadata and extended-operation "
           "service/polling method/request/operation (soundness for every fuel; completeness = the fuel suffices; closure; "
           "leastness among closed sets); pruning is closed and minimal and keeps exactly the listed RPCs plus needed polling "
-          "methods; dependency protos are carried over untouched; internal mode omits nothing and renames (`_` prefix, `Base` "
+          "methods; a kept service always holds a needed method and a needed method's service is always kept; the classes the "
+          "types templates define from a pruned proto (top-level views Proto.messages/enums + nested declarations) are all on the "
+          "allow-list; dependency protos are carried over untouched; internal mode omits nothing and renames (`_` prefix, `Base` "
           "client prefix iff some method is internal); unknown / wrong-version methods (version matched on whole package "
           "segments) are rejected, and nothing else is. A counterexample theorem for the place where the code violates the "
           "statement (nested type kept, declaring message pruned) and a regression theorem for the repaired prefix defect. Tie: T2 the real "
           "add_to_address_allowlist / prune_messages_for_selective_generation / with_internal_methods / "
           "enforce_valid_library_settings / API.build on the type graph extracted from the real schema objects (addresses "
-          "numbered by the real Address.__eq__/__hash__); T3 classes, client surfaces and wire behaviour of the imported "
+          "numbered by the real Address.__eq__/__hash__), incl. the top-level views and the emitted class set; T3 classes "
+          "(all types packages incl. a sub-package), sync/asyncio client surfaces, mixin methods, gapic_metadata.json and wire "
+          "behaviour over sync gRPC, asyncio gRPC and REST (bytes-derived and hand-written dict requests) of the imported "
           "selective library vs the full library and vs a reachability computed on the input descriptors."),
     technique="Lean 4 theorems (DFS soundness/completeness/leastness by induction on fuel with an unvisited-count measure) + differential T2/T3 + descriptor-level oracle",
     design="7.16",
-    note=("Well-formedness of the extracted graph (Api.wf, Api.wfAddrs: enum/service addresses carry no fields, every message "
+    note=("Well-formedness of the extracted graph (Api.wf, Api.wfAddrs, Api.wfServices: enum/service addresses carry no fields, every message "
           "met is in the table, polling methods do not start extended operations, method addresses are unique) is a hypothesis "
           "of the completeness theorems and is evaluated by the driver on every extracted graph. Extended-operation RPCs are "
           "checked at the surface level only in T3 (their REST polling belongs to C08)."),
